@@ -272,6 +272,79 @@ theorem merge_refines {cmp : K → K → Int} (hc : Lawful cmp)
   obtain ⟨t, e, b', o, g⟩ := merge_spec hc f fuel a b ha.1 ha.2 hb.1 hb.2 hf
   exact ⟨t, e, ⟨b', o⟩, g⟩
 
+/-! ### Fuel-free statements
+
+`customizedUnionF` / `mergeF` compute their own fuel from the operands, so they are ordinary total
+functions of the two maps; and the fuelled `customizedUnion` does not depend on its fuel once it is
+above the operand sizes (more fuel never changes an answer: `customizedUnion_mono`). -/
+
+/-- **`customizedUnion`, fuel-free**: no fuel hypothesis at all. -/
+theorem customizedUnionF_refines {cmp : K → K → Int} (hc : Lawful cmp) (f : K → V → V → Option V)
+    (a b : Tree K V) (ha : Inv a) (hb : Inv b) :
+    ∃ t, customizedUnionF cmp f a b = some t ∧ Inv t ∧
+      ∀ q, get cmp t q = unionWith f q (get cmp a q) (get cmp b q) := by
+  obtain ⟨t, e, i, g⟩ := customizedUnion_refines hc f _ a b ha hb (Nat.lt_succ_self _)
+  exact ⟨t, by simp [customizedUnionF, e], i, g⟩
+
+/-- the fuelled function agrees with the fuel-free one for EVERY sufficient fuel (so the fuel is
+not an observable parameter of the model) -/
+theorem customizedUnion_fuel_irrelevant {cmp : K → K → Int} (hc : Lawful cmp)
+    (f : K → V → V → Option V) (fuel : Nat) (a b : Tree K V) (ha : Inv a) (hb : Inv b)
+    (hf : (abs a).length + (abs b).length < fuel) :
+    customizedUnion cmp f fuel a b = some (customizedUnionF cmp f a b) := by
+  obtain ⟨t, e, _, _⟩ := customizedUnion_refines hc f _ a b ha hb (Nat.lt_succ_self _)
+  have := customizedUnion_mono_le cmp f _ fuel (by omega) a b _ e
+  rw [this]; simp [customizedUnionF, e]
+
+/-- **`merge`, fuel-free** -/
+theorem mergeF_refines {cmp : K → K → Int} (hc : Lawful cmp) (f : K → Option V → Option V → Option V)
+    (a b : Tree K V) (ha : Inv a) (hb : Inv b) :
+    ∃ t, mergeF cmp f a b = some t ∧ Inv t ∧
+      ∀ q, get cmp t q = mergeWith f q (get cmp a q) (get cmp b q) := by
+  obtain ⟨t, e, i, g⟩ := merge_refines hc f _ a b ha hb (Nat.lt_succ_self _)
+  exact ⟨t, by simp [mergeF, e], i, g⟩
+
+/-! ### Boundaries of the comparisons inside `join` / `create`
+
+`join` hands `create` only subtrees whose heights differ by at most 2 and `balanced` only subtrees
+whose heights differ by at most 3 (that is how `join_spec` discharges the preconditions of
+`create_spec` / `balanced_spec`).  Both bounds are tight: -/
+
+/-- two `Node`s within the tolerated imbalance are joined without any rotation -/
+theorem join_no_rotation (lh : Int) (lk : K) (lv : V) (ll lr : Tree K V) (k : K) (v : V)
+    (rh : Int) (rk : K) (rv : V) (rl rr : Tree K V) (h1 : lh ≤ rh + 2) (h2 : rh ≤ lh + 2) :
+    join (.node lh lk lv ll lr) k v (.node rh rk rv rl rr) =
+      some (create (.node lh lk lv ll lr) k v (.node rh rk rv rl rr)) := by
+  have c1 : ¬ lh > rh + 2 := by omega
+  have c2 : ¬ rh > lh + 2 := by omega
+  rw [join]; simp [c1, c2]
+
+/-- `create` must not be given an imbalance of 3: the result would violate the height invariant
+(so a `join` whose test were `lh > rh + 3` would be wrong) -/
+theorem create_boundary_counterexample :
+    ∃ l r : Tree Int Int, Bal l ∧ Bal r ∧ height l = height r + 3 ∧ ¬ Bal (create l 9 0 r) :=
+  ⟨.node 3 2 0 (.node 2 1 0 (.leaf 0 0) .empty) (.leaf 3 0), .empty, by simp [Bal], by simp [Bal], rfl,
+    by simp [create, Bal]⟩
+
+/-- the same boundary for `balanced`: rotating already at imbalance 2 (`lh ≥ rh + 2`) panics on a
+balanced right-leaning two-element left subtree -/
+def balancedGe (l : Tree K V) (k : K) (v : V) (r : Tree K V) : Option (Tree K V) :=
+  if height l ≥ height r + 2 then
+    match l with
+    | .node _ lk lv ll lr =>
+      if height ll ≥ height lr then some (mkNode ll lk lv (create lr k v r))
+      else
+        match lr with
+        | .node _ lrk lrv lrl lrr => some (mkNode (create ll lk lv lrl) lrk lrv (create lrr k v r))
+        | _ => none
+    | _ => none
+  else balanced l k v r
+
+theorem map_balanced_boundary_counterexample :
+    ∃ l : Tree Int Int, Bal l ∧ height l = 2 ∧ balancedGe l 9 0 .empty = none ∧
+      balanced l 9 0 .empty = some (.node 3 9 0 l .empty) :=
+  ⟨.node 2 2 0 .empty (.leaf 3 0), by simp [Bal], rfl, by decide, by decide⟩
+
 /-- **ordered traversal**: `iter` calls the callback on the bindings in ascending key order;
 `compare` is the lexicographic comparison and `equal` the pointwise equality of the two ascending
 enumerations (the traversal through `NodeEnumerationHelper` delivers exactly `abs`). -/
@@ -681,6 +754,30 @@ theorem set_balanced_boundary_counterexample :
     ∃ l : STree Int, Bal l ∧ height l = 2 ∧ balancedGe l 9 .empty = none ∧
       balanced l 9 .empty = some (.node 3 9 l .empty) :=
   ⟨.node 2 2 .empty (.leaf 3), by simp [Bal]; omega, rfl, by decide, by decide⟩
+
+/-- **`union` / `map`, fuel-free** (`unionF`, `mapF` compute their own fuel) -/
+theorem set_unionF_refines {cmp : E → E → Int} (hc : Lawful cmp) (a b : STree E) (ha : Inv a) (hb : Inv b) :
+    ∃ t, unionF cmp a b = some t ∧ Inv t ∧ ∀ p, p ∈ abs t ↔ (p ∈ abs a ∨ p ∈ abs b) := by
+  obtain ⟨t, e, i, m⟩ := union_spec hc _ a b ha hb (Nat.lt_succ_self _)
+  exact ⟨t, by simp [unionF, e], i, m⟩
+
+/-- the fuelled `union` agrees with the fuel-free one for every sufficient fuel -/
+theorem set_union_fuel_irrelevant {cmp : E → E → Int} (hc : Lawful cmp) (fuel : Nat) (a b : STree E)
+    (ha : Inv a) (hb : Inv b) (hf : (abs a).length + (abs b).length < fuel) :
+    union cmp fuel a b = some (unionF cmp a b) := by
+  obtain ⟨t, e, _, _⟩ := union_spec hc _ a b ha hb (Nat.lt_succ_self _)
+  have := union_mono_le cmp _ fuel (by omega) a b _ e
+  rw [this]; simp [unionF, e]
+
+theorem set_mapF_refines {cmp : E → E → Int} (hc : Lawful cmp) (f : E → E) (t : STree E) (hi : Inv t) :
+    ∃ t', mapF cmp f t = some t' ∧ Inv t' ∧ ∀ y, y ∈ abs t' ↔ ∃ x ∈ abs t, f x = y := by
+  obtain ⟨t', e, i, m, _⟩ := map_spec hc (fun _ _ => false) (by simp) f _ t hi (Nat.lt_succ_self _)
+  exact ⟨t', by simp [mapF, e], i, m⟩
+
+/-- **`subset`, fuel-free**: with the fuel computed from the operands the answer is inclusion -/
+theorem set_subsetF_refines {cmp : E → E → Int} (hc : Lawful cmp) (a b : STree E) (ha : Inv a) (hb : Inv b) :
+    ∃ r, subset cmp ((abs a).length + (abs b).length + 1) a b = some r ∧ (r = true ↔ ∀ x ∈ abs a, x ∈ abs b) :=
+  set_subset_refines hc _ a b ha hb (Nat.lt_succ_self _)
 
 /-- **`ops_refine` (sets)**: every finite history mixing `insert`, `remove`, `union`,
 `intersection`, `diff`, `filter`, `partition`, `split`, `fromList`, `map` over any number of set registers
